@@ -134,7 +134,8 @@ def make_history(rng, max_steps=6, kinds=None, doc=None):
                 t += rng.choice([10, 30, 59, 60, 61, 125, 600, -50, -200, 3600])
                 ticks.append(str(t))
             ext = rng.random() < 0.3
-            steps.append(Step(now, k, ["_" if (ext or rng.random() < 0.5) else hl(clean_lines(rng)), rng.choice("01"), "1" if ext else "0", ",".join(ticks) if ticks else "_"]))
+            both = rng.random() < 0.08      # --extend together with --summary must be rejected
+            steps.append(Step(now, k, ["_" if ((ext and not both) or rng.random() < 0.5) else hl(clean_lines(rng)), rng.choice("01"), "1" if (ext or both) else "0", ",".join(ticks) if ticks else "_"]))
         now += datetime.timedelta(minutes=rng.choice([1, 7, 30, 90, 240, 1440]))
     return doc, cfg, steps
 
